@@ -11,3 +11,9 @@ def run(ctx):
     # wrong helper rejects (or accepts) every matrix (restated from C16-d)
     from .kernels import run_c16d
     run_c16d(ctx, "C15-g")
+
+    # the formulas above are written in the scalar type's own operations; for the f64 instantiation those are decided by C20-a — restated
+    # here for exactly the operations this code calls: a `powf` / `sqrt` / `cos` of `impl MomTropFloat for f64` that is not std's breaks
+    # this property with every anchored line untouched
+    from .restate import restate_f64_primitives
+    restate_f64_primitives(ctx, [lambda: ctx.roles.decompose()], "the decomposition")
